@@ -36,13 +36,20 @@ def rhs_total(g, sym):
     return tot
 
 
-def counts(m, n, opt, mk, v, h, nf, r, sp=False, **kw):
-    ip, lp = e1_get(kw, m, n)
+def counts(m, n, opt, mk, v, h, nf, r, sp=False, two=False, **kw):
     g, lex = {}, {}
     roots = ("R", "R2") if r else ("R",)
     POS = ["P"] * n if sp else ["P", "P", "Q", "P", "Q", "P"][:n]
     WORDS = ["a", "b", "a", "b", "a", "b"][:n]
-    for lab in roots:
+    if two:
+        # two different symbolic trees over the same labels: the same rule can occur under vertical contexts that
+        # differ only in the fan-out of an ancestor
+        roots = ("R", "R")
+        shapes = [([kw["%sip%d" % (p, i)] for i in range(1, m)], [kw["%slp%d" % (p, j)] for j in range(1, n + 1)]) for p in ("a", "b")]
+    else:
+        ip, lp = e1_get(kw, m, n)
+        shapes = [(ip, lp)] * len(roots)
+    for lab, (ip, lp) in zip(roots, shapes):
         nodes, leaves = build_e1(m, n, ip, lp, labels=[lab, "X", "X", "Y"][:m], pos=POS, words=WORDS)
         grammar.extract(nodes[0], g, lex)
     # replace every count by a symbolic one
@@ -94,4 +101,13 @@ def conds(tier):
                        pre=[e1_wf_expr(m, n), "mk or (v == 0 and h == 0 and not nf)"], shard=sh,
                        skip=lambda sf: (not sf["mk"]) and bool(sf.get("v", 0) or sf.get("h", 0) or sf.get("nf", False)),
                        timeout=600 if q else 3000, functions=FUNCS, note="counts c1..c8: unbounded symbolic positive integers"))
+    from harness.symtree import e1_wf_expr as _wfe
+    for (m, n) in ([(3, 3)] if q else [(3, 3), (3, 4)]):
+        ps = e1_params(m, n, "a") + e1_params(m, n, "b") + cp + [P("opt", "bool"), P("v", "int", 0, 3), P("h", "int", 0, 2), P("nf", "bool")]
+        cs.append(Cond("twotrees-m%d-n%d" % (m, n), "harness.c08:counts", ps,
+                       fixed={"m": m, "n": n, "mk": True, "two": True, "r": True, "sp": False},
+                       pre=[_wfe(m, n, "a"), _wfe(m, n, "b")] + (["nf and h == 1 and v >= 1 and not opt"] if q else ["nf or h == 1"]),
+                       shard=["v", "alp1"] + ([] if q else ["opt", "blp1"]),
+                       skip=(lambda sf: sf["v"] == 0) if q else None, timeout=900 if q else 3000, functions=FUNCS,
+                       note="two symbolic trees over the same labels; counts unbounded symbolic"))
     return cs
